@@ -67,12 +67,41 @@ Section Parse.
   Definition dec_oid' (t : tlv) : option (list N) :=
     match t with Prim Univ 6 c => oid_of_content c | _ => None end.
 
+  (* Go's asn1 on the two optional, explicitly tagged members of ECPrivateKey: an element tagged [0] (resp. [1]) whose first inner
+     element is a universal OBJECT IDENTIFIER (resp. BIT STRING) must hold a well-formed one; an empty explicit tag is an error;
+     anything else is skipped, and elements that follow are ignored *)
+  Definition go_bits_ok (v : bytes) : bool :=
+    match v with
+    | [] => false
+    | p :: r => let pad := b2n p in
+                (pad <=? 7) && negb ((0 <? pad) && match r with [] => true | _ => false end)
+                && match r with [] => true | _ => (b2n (last r p)) mod (2 ^ pad) =? 0 end
+    end.
+  Definition go_oid_ok (c : bytes) : bool :=
+    match arcs_of c 0 false with
+    | Some (v :: r) => forallb (fun a => a <=? 2147483647) (v :: r)
+    | _ => false
+    end.
+  Definition opt_fields_ok (rest : list tlv) : bool :=
+    let after0 := match rest with
+                  | Cons Ctx 0 [] :: _ => None
+                  | Cons Ctx 0 (Prim Univ 6 c :: _) :: r => if go_oid_ok c then Some r else None
+                  | _ => Some rest
+                  end in
+    match after0 with
+    | None => false
+    | Some (Cons Ctx 1 [] :: _) => false
+    | Some (Cons Ctx 1 (Prim Univ 3 v :: _) :: _) => go_bits_ok v
+    | Some _ => true
+    end.
+
   (* asn1.Unmarshal returns trailing bytes instead of rejecting them, and the callers (as in crypto/x509) drop them *)
   Definition parse_ec_private_key (outer_curve : option keyalg) (b : bytes) : option privkey :=
     match parse b with
     | Some (Cons Univ 16 (Prim Univ 2 v :: Prim Univ 4 sc :: rest), _) =>
       match int_of_content v with
       | Some 1%Z =>
+        if negb (opt_fields_ok rest) then None else
         let inner_curve :=
             match rest with
             | Cons Ctx 0 [o] :: _ => match dec_oid' o with Some co => curve_of_oid co | None => None end
